@@ -890,4 +890,12 @@ class SecureHomeKitConnection(HomeKitConnection):
         logger.debug("Secure connection to %s:%s established", self.connected_host, self.port)
 
         if self.owner:
-            await self.owner.connection_made(True)
+            try:
+                await self.owner.connection_made(True)
+            except BaseException:
+                # The session could not be handed over to its owner (for
+                # example the reply to the re-subscription request could not
+                # be processed). The connector will retry with a new
+                # connection, so close this one instead of leaking it.
+                self._drop_transport()
+                raise
